@@ -138,6 +138,16 @@ class Automaton(object):
         if extra_null:
             from ..facts import WORD
             a.cells[((), self.field_off('extra'))] = (WORD, ZERO)
+        else:
+            # the step is a function of (state, time stamp, input, clock): whatever the auxiliary block holds (charge counter,
+            # armed inactivity deadline, RepeatBand statistics) is arbitrary here, so a step that consults it shows
+            from .. import mem as _mem0
+            ex_ = st.canon(_mem0.load_scalar(st, a, C(self.field_off('extra')), self.ix.parse_type('void *')))
+            if ex_[0] == 'ptr' and ex_[1] in st.objs and ex_[1] != self.oid:
+                xo = st.objs[ex_[1]]
+                xo.cells.clear()
+                xo.default = 'sym'
+                xo.zeroed_n = None
         inp = ('sym', 'input', -(1 << 31), (1 << 31) - 1)
         ix = self.ix
         ret = self.ret
